@@ -30,7 +30,7 @@ TRUSTED = [
     "harness/hx-paint: synthetic registry built like the macro expansion, switchable AllocProfiler wrapper, run records; ocaml/paint.ml (UTF-8 decoding, case parsing)",
     "glyph strings and column headings are written into Model/Painter.v by hand and tied to the code by the byte-for-byte stdout comparison",
 ]
-CONSTS_USED = []
+CONSTS_USED = ['glyph_branch', 'glyph_bar_unit', 'max_common_column_width']
 
 WORDS = ["a", "b", "x", "io", "add", "sub", "sort", "parse", "alloc_vec", "hash_map", "with space", "two words here", "日本語", "ñandú",
          "émoji🙂", "ΑΒΓ", "ｗｉｄｅ", "snake_case_name", "CamelCase", "a_rather_long_benchmark_name_that_widens", "x" * 40,
